@@ -403,13 +403,27 @@ class Run:
         out = []
         for i in range(len(self.chain)):
             out.append(('adv', i))
-            if self.sched[i] != 'none':
-                out.append(('flush', self.sched[i] == 'full'))
+            out += actions_of(self.sched[i])
         return out
 
     def outpoints(self):
         return [(t.txid, idx) for i in sorted(self.blocks) for t in self.blocks[i].txs
                 for idx in range(len(t.outs))]
+
+
+def actions_of(entry):
+    """What happens after a block: 'none' | 'hist' | 'full', or several joined by '+' ('hist+full': a
+    history-only flush directly followed by a full one with no block in between - cache pressure, then
+    a shutdown or a catch-up; '...+open': then a clean restart)."""
+    out = []
+    for a in entry.split('+'):
+        if a == 'hist':
+            out.append(('flush', False))
+        elif a == 'full':
+            out.append(('flush', True))
+        elif a == 'open':
+            out.append(('open',))
+    return out
 
 
 def daemon_height(rng, mode, height, final):
@@ -460,6 +474,11 @@ def gen_run(rng, tier, groups, res, reorg=False, profile=None):
         for i in (1, 2):
             if i < n:
                 sched[i] = 'full'       # colliding outputs reach the DB before they are spent
+    if not reorg and profile is None and n >= 3 and rng.random() < 0.5:
+        # a full flush with nothing new for the history (directly after a history-only flush), a flush
+        # with nothing new at all, and clean restarts in the middle of the run
+        for i in rng.sample(range(n - 1), rng.choice([1, 2])):
+            sched[i] = rng.choice(['hist+full', 'hist+full+open', 'hist+full+open', 'full+open', 'full+full'])
     sched[-1] = 'full'
     d = {'act': act, 'lim': lim, 'chain': [b.id for b in chain], 'sched': sched,
          'dh': [daemon_height(rng, mode, i, n - 1) for i in range(n)]}
@@ -588,6 +607,8 @@ def describe_cut(cut, ref_effects):
 def apply_real(real, run, op):
     if op[0] == 'adv':
         return real.advance(run.chain[op[1]], run.dh[op[1]])
+    if op[0] == 'open':
+        return real.open()
     return real.flush(op[1])
 
 
@@ -646,8 +667,12 @@ def c04_case(scr, run, fpos, cut, second, ref, cid, stats):
         # resume to the end (original schedule), full flush, compare with the whole chain
         for i in range(h + 1, len(run.chain)):
             scr.advance(real, run.chain[i], run.dh[i], cid)
-            if run.sched[i] != 'none' and i < len(run.chain) - 1:
-                scr.flush(real, run.sched[i] == 'full', cid)
+            if i < len(run.chain) - 1:
+                for a in actions_of(run.sched[i]):
+                    if a[0] == 'open':
+                        scr.emit('OPEN 0', real.open(), 'open', cid)
+                    else:
+                        scr.flush(real, a[1], cid)
         scr.flush(real, True, cid)
         scr.dumps(real, cid)
         scr.spec_check(real, run.chain, cid, run.outpoints())
@@ -702,6 +727,13 @@ def c04_run(res, run, label, only=None):
         for pos, op in enumerate(ops):
             if op[0] == 'adv':
                 ref.advance(ref_real, run.chain[op[1]], run.dh[op[1]], 'ref')
+                continue
+            if op[0] == 'open':
+                ref_real.inj.reset()
+                ref.emit('OPEN 0', ref_real.open(), 'open', 'ref')
+                ref.emit('EFFECTS', ' || '.join(ref_real.inj.effects), 'effects', 'ref')
+                ref.dumps(ref_real, 'ref')
+                res.bump('clean_restarts_inside_a_run')
                 continue
             fno += 1
             fu = op[1]
@@ -1017,16 +1049,15 @@ def shrink(v):
 
     seen, keep = -1, len(d['chain'])
     for i, s in enumerate(d['sched']):
-        if s != 'none':
-            seen += 1
-            if seen == v['flush']:
-                keep = i + 1
-                break
+        seen += sum(1 for a in actions_of(s) if a[0] == 'flush')
+        if seen >= v['flush']:
+            keep = i + 1
+            break
     for n in range(keep, len(d['chain'])):
         sched = d['sched'][:n]
         if n > keep:
             sched[-1] = 'full'
-        if sched[-1] != 'full':
+        if 'full' not in sched[-1].split('+'):
             continue
         d2 = dict(d, chain=d['chain'][:n], sched=sched, dh=d['dh'][:n])
         if fails(d2):
